@@ -390,6 +390,8 @@ impl<'a, F: Field> AddAssign<(F, &'a Self)> for DensePolynomial<F> {
             self.coeffs.clear();
             self.coeffs.extend_from_slice(&other.coeffs);
             self.coeffs.iter_mut().for_each(|c| *c *= &f);
+            // `f` may be zero, in which case every coefficient just vanished.
+            self.truncate_leading_zeros();
             return;
         }
 
